@@ -7,8 +7,19 @@
 use crate::ast::*;
 use crate::prng::Rng;
 
+/// Which family of statements a workload over-samples.
+#[derive(Clone, Copy, Debug, PartialEq, Eq)]
+pub enum Emph {
+    None,
+    Data,
+    Fn,
+    Print,
+    Input,
+}
+
 #[derive(Clone, Debug)]
 pub struct GenCfg {
+    pub emph: Emph,
     pub size: usize,
     pub input: bool,
     pub data: bool,
@@ -43,6 +54,7 @@ impl GenCfg {
     pub fn swarm(rng: &mut Rng) -> GenCfg {
         let size = *rng.pick(&[3usize, 5, 8, 12, 18, 25]);
         GenCfg {
+            emph: Emph::None,
             size,
             input: rng.pct(35),
             data: rng.pct(45),
@@ -238,6 +250,11 @@ impl<'a> Gen<'a> {
     }
 
     pub fn int_expr(&mut self, depth: u32) -> Expr {
+        if self.cfg.emph == Emph::Fn && depth < 3 && self.rng.pct(22) {
+            if let Some(e) = self.fn_call(Ty::Int, depth + 1) {
+                return e;
+            }
+        }
         let leaf = depth >= 3 || self.rng.pct(45);
         if leaf {
             match self.rng.below(10) {
@@ -316,6 +333,11 @@ impl<'a> Gen<'a> {
                 Builtin::Int,
                 vec![Expr::bin(BinOp::Mul, Expr::Call(Builtin::Rnd, vec![Expr::Int(1)]), Expr::Int(10))],
             );
+        }
+        if self.cfg.emph == Emph::Fn && depth < 3 && self.rng.pct(22) {
+            if let Some(e) = self.fn_call(Ty::Sng, depth + 1) {
+                return e;
+            }
         }
         let leaf = depth >= 3 || self.rng.pct(45);
         if leaf {
@@ -405,6 +427,11 @@ impl<'a> Gen<'a> {
     }
 
     pub fn str_expr(&mut self, depth: u32) -> Expr {
+        if self.cfg.emph == Emph::Fn && depth < 3 && self.rng.pct(22) {
+            if let Some(e) = self.fn_call(Ty::Str, depth + 1) {
+                return e;
+            }
+        }
         if !self.cfg.strings {
             return Expr::Str("S".into());
         }
@@ -561,7 +588,7 @@ impl<'a> Gen<'a> {
     }
 
     fn print_stmt(&mut self) -> Stmt {
-        let n = self.rng.range(0, 4);
+        let n = if self.cfg.emph == Emph::Print { self.rng.range(0, 7) } else { self.rng.range(0, 4) };
         let mut items: Vec<PItem> = vec![];
         let mut prev_is_expr = false;
         let mut prev_str_lit = false;
@@ -655,7 +682,28 @@ impl<'a> Gen<'a> {
                 q: false,
                 items: vec![PItem::E(Expr::Fn(Var::new("ZZ"), vec![Expr::Int(1)]))],
             },
-            7 => Stmt::OnGoto(Expr::int(-1), vec![Target::L(0)]),
+            7 => {
+                if !self.fns.is_empty() && self.rng.pct(60) {
+                    // wrong number of arguments
+                    let (name, ptys, _) = self.fns[0].clone();
+                    let mut args: Vec<Expr> = ptys.iter().map(|t| self.expr_of(*t, 2)).collect();
+                    if self.rng.pct(50) || args.is_empty() {
+                        args.push(Expr::Int(1));
+                    } else {
+                        args.pop();
+                        if args.is_empty() {
+                            args.push(Expr::Int(1));
+                            args.push(Expr::Int(2));
+                        }
+                    }
+                    Stmt::Print {
+                        q: false,
+                        items: vec![PItem::E(Expr::Fn(name, args))],
+                    }
+                } else {
+                    Stmt::OnGoto(Expr::int(-1), vec![Target::L(0)])
+                }
+            }
             _ => Stmt::Let {
                 kw: false,
                 target: LVal::scalar("S$"),
@@ -673,6 +721,14 @@ impl<'a> Gen<'a> {
         if self.cfg.errors && !self.planted && self.rng.pct(4) && self.active_loops.is_empty() && self.in_sub == 0 {
             // RETURN / NEXT as planted errors only where no frame exists
             return self.planted_error();
+        }
+        match self.cfg.emph {
+            Emph::Data if self.cfg.data && self.rng.pct(35) => {
+                return if self.rng.pct(75) { self.read_stmt(4) } else { Stmt::Restore(None) };
+            }
+            Emph::Print if self.rng.pct(45) => return self.print_stmt(),
+            Emph::Input if self.cfg.input && self.rng.pct(35) => return self.input_stmt(),
+            _ => {}
         }
         match r {
             0..=34 => self.let_stmt(),
@@ -696,25 +752,7 @@ impl<'a> Gen<'a> {
                 },
                 expr: self.str_expr(1),
             },
-            79..=85 if self.cfg.data && !self.data_types.is_empty() => {
-                let n = self.rng.range(1, 2);
-                let mut ts = vec![];
-                for _ in 0..n {
-                    // mostly type-compatible reads: pick a target of a plausible type
-                    let (t, _) = if self.rng.pct(85) {
-                        let want = *self.rng.pick(&self.data_types.clone());
-                        match want {
-                            Ty::Str if self.cfg.strings => (LVal::scalar(*self.rng.pick::<&str>(STR_VARS)), Ty::Str),
-                            Ty::Str => (LVal::scalar("S$"), Ty::Str),
-                            _ => (LVal::scalar(*self.rng.pick::<&str>(SNG_VARS)), Ty::Sng),
-                        }
-                    } else {
-                        self.any_target()
-                    };
-                    ts.push(t);
-                }
-                Stmt::Read(ts)
-            }
+            79..=85 if self.cfg.data && !self.data_types.is_empty() => self.read_stmt(2),
             86..=87 if self.cfg.data => Stmt::Restore(None),
             88..=93 if self.cfg.input => self.input_stmt(),
             94..=95 if self.cfg.tron => {
@@ -735,8 +773,36 @@ impl<'a> Gen<'a> {
         }
     }
 
+    fn read_stmt(&mut self, max: i64) -> Stmt {
+        let n = self.rng.range(1, max);
+        let mut ts = vec![];
+        for _ in 0..n {
+            // mostly type-compatible reads: pick a target of a plausible type
+            let (t, _) = if self.rng.pct(80) && !self.data_types.is_empty() {
+                let want = *self.rng.pick(&self.data_types.clone());
+                match want {
+                    Ty::Str if self.cfg.strings => (LVal::scalar(*self.rng.pick::<&str>(STR_VARS)), Ty::Str),
+                    Ty::Str => (LVal::scalar("S$"), Ty::Str),
+                    _ => match self.rng.below(4) {
+                        0 => (LVal::scalar(*self.rng.pick::<&str>(INT_VARS)), Ty::Int),
+                        1 if self.cfg.doubles => (LVal::scalar(*self.rng.pick::<&str>(DBL_VARS)), Ty::Dbl),
+                        _ => (LVal::scalar(*self.rng.pick::<&str>(SNG_VARS)), Ty::Sng),
+                    },
+                }
+            } else {
+                self.any_target()
+            };
+            ts.push(t);
+        }
+        Stmt::Read(ts)
+    }
+
+    pub fn input_stmt_public(&mut self) -> Stmt {
+        self.input_stmt()
+    }
+
     fn input_stmt(&mut self) -> Stmt {
-        let n = self.rng.range(1, 3);
+        let n = if self.cfg.emph == Emph::Input { self.rng.range(1, 5) } else { self.rng.range(1, 3) };
         let mut targets = vec![];
         for i in 0..n {
             let (t, _) = if i > 0 && self.cfg.arrays && self.rng.pct(20) {
@@ -1349,7 +1415,7 @@ impl<'a> Gen<'a> {
             }
         }
         if self.cfg.fns {
-            let n = 1 + self.rng.usize(3);
+            let n = if self.cfg.emph == Emph::Fn { 2 + self.rng.usize(2) } else { 1 + self.rng.usize(3) };
             for i in 0..n {
                 let (fname, ret) = match i {
                     0 => ("A", Ty::Sng),
@@ -1462,7 +1528,7 @@ impl<'a> Gen<'a> {
             }
         }
         let mut num = self.cfg.line_start as u32;
-        let mut lines = vec![];
+        let mut lines: Vec<Line> = vec![];
         for d in all {
             lines.push(Line {
                 num: num.min(65529) as u16,
@@ -1475,10 +1541,68 @@ impl<'a> Gen<'a> {
             };
             num += step.max(1);
         }
+        if self.cfg.data && (self.cfg.emph == Emph::Data || self.rng.pct(25)) && !self.cfg.tron && !lines.is_empty() {
+            // DATA inside a branch that never executes still belongs to the list
+            let at = self.rng.usize(lines.len() + 1);
+            let num = if at < lines.len() { lines[at].num.saturating_sub(1) } else { lines[lines.len() - 1].num.saturating_add(3).min(65529) };
+            let free = !lines.iter().any(|l| l.num == num) && (at == 0 || lines[at - 1].num < num);
+            if free {
+                let item = if self.rng.pct(50) { Expr::Int(77) } else { Expr::Str("IFDATA".into()) };
+                let ty = if let Expr::Int(_) = item { Ty::Int } else { Ty::Str };
+                if !self.data_types.contains(&ty) {
+                    self.data_types.push(ty);
+                }
+                lines.insert(
+                    at,
+                    Line {
+                        num,
+                        stmts: vec![Stmt::If {
+                            cond: Expr::Int(0),
+                            goto_form: false,
+                            then: Branch::Stmts(vec![Stmt::Data(vec![item])]),
+                            els: None,
+                        }],
+                    },
+                );
+                for x in label_to_index.iter_mut() {
+                    if *x != usize::MAX && *x >= at {
+                        *x += 1;
+                    }
+                }
+            }
+        }
         let mut p = Program { lines };
         let n = p.lines.len();
+        if self.cfg.data && n > 0 {
+            // RESTORE n: any existing line is a legal operand
+            let pr = if self.cfg.emph == Emph::Data { 60 } else { 30 };
+            let mut picks: Vec<usize> = vec![];
+            for _ in 0..8 {
+                picks.push(self.rng.usize(n));
+            }
+            let mut k = 0;
+            let mut flip: Vec<bool> = vec![];
+            for _ in 0..8 {
+                flip.push(self.rng.pct(pr));
+            }
+            for l in p.lines.iter_mut() {
+                for st in l.stmts.iter_mut() {
+                    if let Stmt::Restore(None) = st {
+                        if flip[k % 8] {
+                            *st = Stmt::Restore(Some(Target::L(usize::MAX - picks[k % 8])));
+                        }
+                        k += 1;
+                    }
+                }
+            }
+        }
         map_targets(&mut p, &mut |t| {
             if let Target::L(l) = t {
+                if *l > usize::MAX / 2 {
+                    // already a line index (RESTORE n picked after layout)
+                    *t = Target::L(usize::MAX - *l);
+                    return;
+                }
                 let i = label_to_index.get(*l).copied().unwrap_or(usize::MAX);
                 *t = Target::L(if i == usize::MAX { n.saturating_sub(1) } else { i });
             }
